@@ -409,6 +409,7 @@ func (fe *FuncEnc) run(extra []*Clause) {
 		for ei, ex := range exits {
 			env := fr.envAt(ex.st)
 			env.at = ex.ret.Block()
+			env.entryParams = true
 			bindResults(env, sig, ex.results)
 			if en.Kind == "ensures" && strings.HasPrefix(en.Label, "iface:") {
 				// iface clause: positional parameter names of the interface method
@@ -463,6 +464,7 @@ func (fe *FuncEnc) run(extra []*Clause) {
 		for i, cs := range css {
 			env := fr.envAt(cs.pre)
 			env.at = cs.block
+			env.entryParams = true
 			env.curCall = cs
 			env.curName = sk.Call
 			f, err := env.evalBool(sk.Expr)
